@@ -20,7 +20,7 @@ from pathlib import Path
 ROOT = Path(__file__).resolve().parent.parent
 SPEC = ROOT / 'spec'
 BUILD = ROOT / 'build'
-EVID = ROOT / 'evidence'
+EVID = Path(os.environ.get('VERIF_EVIDENCE_DIR') or (ROOT / 'evidence'))   # mutation runs write elsewhere
 REPO = Path(os.environ.get('FURAX_REPO', '/repo'))
 TLA_CP = '/opt/veriftools/tla/tla2tools.jar:/opt/veriftools/tla/CommunityModules-deps.jar'
 NPROC = min(16, os.cpu_count() or 4)
